@@ -58,6 +58,7 @@ HrgCalls ==
 InterpCalls == IF ~WithInterp THEN {} ELSE
        { [op |-> "add_domain", h |-> h, nl |-> nl, dom |-> d] : h \in HH, nl \in {"A", "B"}, d \in {D2, D3} }
   \cup { [op |-> "add_factor", h |-> h, el |-> l, fac |-> f] : h \in HH, l \in {La, La2, LX, LXt}, f \in {F2, F3, F22, F0} }
+  \cup { [op |-> "set_weights", h |-> h, name |-> "a", w |-> <<7, 8>>] : h \in HH }
 Calls == IF WithInterp THEN InterpCalls \cup { c \in HrgCalls : c.op \in {"new_hrg", "copy", "add_edge_label"} }
                                         \cup { c \in HrgCalls : c.op = "add_rule" /\ c.rhs \in {Val(R1), Val(R0)} }
          ELSE GraphCalls \cup HrgCalls
